@@ -6,7 +6,7 @@
  2. structural family: every expression kind as an unused statement / discarded branch value, bodies with m calls,
     many globals, deep nesting - the chunk must load.
  3. every chunk of the core catalogue must load."""
-import time, multiprocessing as mp
+import re, time, multiprocessing as mp
 import z3
 from vlib import common
 from rexsmt import tokens as T
@@ -30,7 +30,9 @@ def witnesses(stats):
             if r != z3.sat:
                 if r != z3.unsat: raise common.Inconclusive("z3 unknown in a token-language query")
                 break
-            v = s.model().eval(x, model_completion=True).as_string(); vals.append(v); s.add(x != z3.StringVal(v))
+            v = s.model().eval(x, model_completion=True).as_string()
+            v = re.sub(r"\\u\{([0-9a-fA-F]+)\}", lambda mm: chr(int(mm.group(1), 16)), v)      # z3 prints non-Latin-1 characters (and ambiguous backslashes) as \u{hex}
+            vals.append(v); s.add(x != z3.StringVal(v))
         return vals
     # identifiers: in L(Identifier), not claimed by a keyword-like token, equal to a Lua reserved word
     others = z3.Union(*[L[v] for v in L if v not in ("Identifier", "Comment", "Whitespace", "String")])
@@ -56,6 +58,9 @@ def witnesses(stats):
         ("string-single-quote", [z3.Contains(y, z3.StringVal("'")), z3.Length(y) == 1]),
         ("string-long-bracket-close", [y == z3.StringVal("]]")]),
         ("string-non-ascii", [y == z3.StringVal("ä€")]),
+        ("string-latin1-char", [z3.Length(y) == 1, z3.InRe(y, z3.Range(chr(0xa1), chr(0xff)))]),
+        ("string-char-above-255", [z3.Length(y) == 1, z3.InRe(y, z3.Range(chr(0x100), chr(0x2fff)))]),
+        ("string-char-above-999", [z3.Length(y) == 2, z3.InRe(y, z3.Concat(z3.Range(chr(0x3e8), chr(0x2fff)), z3.Range("0", "9")))]),
     ]
     for cname, cs in classes:
         for v in all_models([instr] + cs, 2)[:1]:
@@ -108,6 +113,18 @@ def structural(tier):
         if d <= 10: out.append(("nested-ifs-%d" % d, "start :: fn do\n    a := 1\n" + "".join("    " * (i + 1) + "if a > 0 do\n" for i in range(d)) + "    " * (d + 1) + "print(a)\n" + "".join("    " * (d - i) + "end\n" for i in range(d)) + "end\n"))
         out.append(("nested-calls-%d" % d, "f :: fn v: int -> int do ret v end\nstart :: fn do\n    print(" + "f(" * d + "1" + ")" * d + ")\nend\n"))
         out.append(("long-operator-chain-%d" % d, "start :: fn do\n    a := 1\n    print(a" + " + a" * (d * 3) + ")\nend\n"))
+    # statements after a control transfer (Lua allows `return` only as the last statement of a block)
+    AFTER = {"ret-value-then-expression": "f :: fn a: int -> int do\n    ret a\n    a + 1\nend\nstart :: fn do\n    print(f(1))\nend\n",
+             "bare-ret-then-statement": "g :: fn a: int do\n    ret\n    print(a)\nend\nstart :: fn do\n    g(1)\nend\n",
+             "ret-in-branch-then-statement": "f :: fn a: int -> int do\n    if a > 0 do\n        ret 1\n        print(a)\n    end\n    ret 2\nend\nstart :: fn do\n    print(f(1))\nend\n",
+             "ret-in-loop-then-statement": "f :: fn a: int -> int do\n    loop a > 0 do\n        ret 1\n        a -= 1\n    end\n    ret 2\nend\nstart :: fn do\n    print(f(1))\nend\n",
+             "ret-in-case-arm-then-statement": "En :: enum\n    A int,\n    B,\nend\nf :: fn e: En -> int do\n    case e do\n        A v ->\n            ret v\n            print(v)\n        end\n        else end\n    end\n    ret 2\nend\nstart :: fn do\n    print(f(En.A 1))\nend\n",
+             "ret-in-closure-then-statement": "start :: fn do\n    c := fn -> int do\n        ret 1\n        2\n    end\n    print(c())\nend\n",
+             "two-rets": "f :: fn a: int -> int do\n    ret a\n    ret a + 1\nend\nstart :: fn do\n    print(f(1))\nend\n",
+             "break-then-statement": "start :: fn do\n    loop do\n        break\n        print(1)\n    end\n    print(2)\nend\n",
+             "continue-then-statement": "start :: fn do\n    i := 0\n    loop i < 2 do\n        i += 1\n        continue\n        print(1)\n    end\n    print(2)\nend\n",
+             "unreachable-then-statement": "f :: fn a: int -> int do\n    if a > 5 do\n        <!>\n        print(a)\n    end\n    ret a\nend\nstart :: fn do\n    print(f(1))\nend\n"}
+    for n, text in AFTER.items(): out.append(("statements-after-" + n, text))
     return out
 
 
